@@ -246,10 +246,11 @@ def run_urdf_history(hid, seed):
     moving_obstacles = rng.random() < 0.6
 
     def mover(step):
+        micro = rng.random() < 0.25          # a tiny motion (1e-6 units / radians) on top of the lattice configuration: the colliders must follow
         for name, jt in jinfo.items():
             if rng.random() < 0.7:
                 val = float(rng.randint(-4, 4)) if jt == "prismatic" else rng.randint(-2, 2) * math.pi / 2
-                tm.set_joint(name, val)
+                tm.set_joint(name, val + (1e-6 * rng.choice((-1, 1, 3)) if micro else 0.0))
         if moved_base and rng.random() < 0.6:
             T = np.eye(4); T[:3, 3] = [rng.randint(-3, 3) for _ in range(3)]
             tm.add_transform("r", "origin", T)            # the mobile base moves
